@@ -107,6 +107,8 @@ class Ctx:
             # replay: every non-trivial branch (forced or forked) is in the prefix, so
             # the replay never depends on a second verdict of the solver
             d = self.prefix[self.pos]
+            if not isinstance(d, bool):
+                raise RuntimeError("replay misaligned: expected a branch")
             self.pos += 1
             c = cond if d else z3.Not(cond)
             self.pc.append(c)
@@ -130,6 +132,55 @@ class Ctx:
         self.solver.add(c)
         return d
 
+    def choose(self, z, n):
+        """n-ary decision: a concrete value 0 <= k < n of the Int term z.  Feasible values are
+        enumerated from models (one solver call per feasible value)."""
+        zs = z3.simplify(z)
+        if z3.is_int_value(zs):
+            return zs.as_long()
+        if self.pos < len(self.prefix):
+            k = self.prefix[self.pos]
+            if isinstance(k, bool) or not isinstance(k, tuple):
+                raise RuntimeError("replay misaligned: expected a choice")
+            k = k[1]
+            self.pos += 1
+            self.pc.append(z == k)
+            self.solver.add(z == k)
+            return k
+        if self.scopes and _mentions(z, self.scopes):
+            raise Unsupported("choice on the generic element inside a generic iteration")
+        vals = []
+        self.solver.push()
+        self.solver.add(z >= 0, z < n)
+        while True:
+            self.nsolver_calls += 1
+            r = self.solver.check()
+            if r != z3.sat:
+                if r == z3.unknown:
+                    self.solver.pop()
+                    raise Unsupported("solver gave up while enumerating a finite choice")
+                break
+            v = self.solver.model().eval(z, model_completion=True)
+            if not z3.is_int_value(v):
+                self.solver.pop()
+                raise Unsupported("non-numeral model value in a finite choice")
+            vals.append(v.as_long())
+            self.solver.add(z != v.as_long())
+        self.solver.pop()
+        if not vals:
+            raise PathAbort("no feasible value for a finite choice")
+        vals.sort()
+        for k in vals[1:]:
+            self.pending.append(self.prefix + [("c", k)])
+        if len(vals) > 1:
+            self.nforks += 1
+        k = vals[0]
+        self.prefix.append(("c", k))
+        self.pos += 1
+        self.pc.append(z == k)
+        self.solver.add(z == k)
+        return k
+
     # ---- generic scopes -----------------------------------------------------
     def generic_scope(self, var, assumption):
         return _Scope(self, var, assumption)
@@ -137,13 +188,44 @@ class Ctx:
     # ---- obligations ------------------------------------------------------
     def oblige(self, oid, goal, kind="ensures", note=""):
         goal = _b(goal)
-        self.obligations.append(Obligation(oid, self.pc, goal, kind, note, self.path_no))
+        ob = Obligation(oid, self.pc, goal, kind, note, self.path_no)
+        self.obligations.append(ob)
+        # fast path: the path's incremental solver already holds pc.  Only `unsat` is
+        # accepted here (fewer facts than the full query -> still valid); anything else
+        # goes to the full discharge with all hint instances.
+        t0 = time.time()
+        try:
+            from .proxies import hint_facts
+            g = z3.simplify(goal)
+            self.solver.push()
+            self.solver.set("timeout", 3000)
+            self.solver.add(z3.Not(g))
+            for f in hint_facts([g]):
+                self.solver.add(f)
+            r = self.solver.check()
+            self.solver.pop()
+            self.solver.set("timeout", FEAS_TIMEOUT_MS)
+            if r == z3.unsat:
+                ob.status = "proved"
+                ob.backend = "z3-incremental"
+                ob.time_s = time.time() - t0
+        except z3.Z3Exception:
+            pass
 
     def cover(self, oid, cond=True, note=""):
         """reachability guard: pc ∧ cond must be satisfiable"""
         cond = _b(cond)
-        self.obligations.append(Obligation(oid, self.pc, cond, "cover", note, self.path_no,
-                                           expect_sat=True))
+        ob = Obligation(oid, self.pc, cond, "cover", note, self.path_no, expect_sat=True)
+        self.obligations.append(ob)
+        try:
+            self.solver.push()
+            self.solver.add(cond)
+            r = self.solver.check()
+            self.solver.pop()
+            if r == z3.sat:
+                ob.status = "sat"
+        except z3.Z3Exception:
+            pass
 
     def mark_positive(self, expr):
         self.positive.add(expr.get_id())
